@@ -6,12 +6,14 @@ import (
 	"crypto/sha1" //nolint:gosec
 	"encoding/base64"
 	"fmt"
+	"net"
 	"strconv"
 	"strings"
 	"testing"
 	"testing/synctest"
 	"time"
 
+	"github.com/pion/stun/v3"
 	"github.com/pion/turn/v5"
 	"github.com/pion/turn/v5/internal/zzverif/ref"
 	"github.com/pion/turn/v5/internal/zzverif/sim"
@@ -30,6 +32,7 @@ type C17Case struct {
 	OffsetMs  int    `json:"offset_ms"` // generation happens this long after a whole second
 	Window    int    `json:"window"`    // probe every second in [expiry-window, expiry+window]
 	Extra     []int64 `json:"extra,omitempty"` // further probe instants, seconds relative to expiry
+	MethodSeed uint8  `json:"method_seed,omitempty"` // where the cycle through request methods starts
 }
 
 func refPassword(secret, username string) string {
@@ -84,8 +87,16 @@ func runC17Inner(c *C17Case) (string, string) { //nolint:cyclop,gocyclo
 		return "password", fmt.Sprintf("generated password %q, HMAC-SHA1(secret, username) is %q", password, want)
 	}
 	wantKey := ref.LongTermKey(username, c.Realm, password)
+	// the handler sees the request's method and source; its verdict must not depend on them
+	// (cycled through every method the server authenticates, per call)
+	methods := []stun.Method{0, stun.MethodAllocate, stun.MethodRefresh, stun.MethodCreatePermission, stun.MethodChannelBind,
+		stun.MethodConnect, stun.MethodConnectionBind, stun.MethodBinding, stun.MethodSend}
+	askN := int(c.MethodSeed)
 	ask := func(user string) (string, []byte, bool) {
-		return handler(&turn.RequestAttributes{Username: user, Realm: c.Realm})
+		askN++
+
+		return handler(&turn.RequestAttributes{Username: user, Realm: c.Realm, Method: methods[askN%len(methods)],
+			SrcAddr: &net.UDPAddr{IP: net.IPv4(10, 1, 0, byte(askN%250+1)), Port: 5000 + askN%7}})
 	}
 	// --- mutations, judged at generation time (credential unexpired iff duration >= 0)
 	_, key0, ok0 := ask(username)
@@ -203,6 +214,7 @@ func genC17(rt *rapid.T) *C17Case {
 		User:    str.Draw(rt, "user"),
 		Realm:   rapid.SampledFrom([]string{"pion.ly", "", "sim.realm", "r:x"}).Draw(rt, "realm"),
 	}
+	c.MethodSeed = uint8(rapid.IntRange(0, 8).Draw(rt, "methodSeed")) //nolint:gosec
 	c.DurationS = rapid.OneOf(
 		rapid.Int64Range(-100, 100),
 		rapid.Int64Range(0, 86400),
